@@ -18,10 +18,10 @@ func init() {
 		"the exact errno of each refusal; the golden-file grid of the suite",
 		"that the search-permission test covers the view's root directory itself (the walk checks every directory it descends into)",
 	}
-	register(&Rule{ID: "C03.matrix", Floor: 18, Also: []string{"C11"},
+	register(&Rule{ID: "C03.matrix", Floor: 18, Also: []string{"C11", "C02"},
 		// C11: a view's root is never descended into by the walk, so the search permission the parent enforces on the
 		// way down is enforced for the view only by the check on the containing directory at the point of change.
-		AlsoOnly: map[string][]string{"C11": {" insert into ", " remove from ", " lookup in "}}, AlsoFloor: map[string]int{"C11": 10},
+		AlsoOnly: map[string][]string{"C11": {" insert into ", " remove from ", " lookup in "}, "C02": {" truncate "}}, AlsoFloor: map[string]int{"C11": 10, "C02": 1},
 		Text: "must-check-before-act, decided on every acyclic path to the act: (1) an entry is added to / removed from directory p only after p.checkPermission(mask including OpenWrite, user) returned true on that path - and including OpenLookup unless p is the directory result of the walk, on which clause (5) has tested search permission where the last name was looked up (pointer-equality decisions on the path make the check on one name count for the other; objects allocated by the call need none); (2) the content of an existing file is truncated by a path-level call only after checkPermission including write on that file (or with the decoded open mode, whose decoder guarantees OpenTruncate => OpenWrite, C01.flags); (3) setOwner only after the administrator test; (4) the boolean result of setMode / setModTime is tested and its false branch returns an error; (5) the walk descends into a directory only after checkPermission(OpenLookup) on it; (6) OpenFile hands out a handle on an existing node only after checkPermission on it",
 		Run:  c03Matrix})
 	register(&Rule{ID: "C03.admin", Also: []string{"C16"}, AlsoOnly: map[string][]string{"C16": {"stranger-refused"}}, AlsoFloor: map[string]int{"C16": 1}, Floor: 3,
@@ -710,6 +710,7 @@ func c03Create(rc *RuleCtx) {
 // modeUsesViewUMask: the expression contains `x &^ recv.UMask()`.
 func modeUsesViewUMask(v ssa.Value, recv ssa.Value) (bool, string) {
 	found := false
+	bad := ""
 	why := "the stored mode is not of the form perm &^ vfs.UMask()"
 	var walk func(v ssa.Value, d int)
 	walk = func(v ssa.Value, d int) {
@@ -722,6 +723,9 @@ func modeUsesViewUMask(v ssa.Value, recv ssa.Value) (bool, string) {
 				c, _ := resultOfCall(x.Y)
 				if c != nil && calleeFunc(c) != nil && calleeFunc(c).Name() == "UMask" {
 					if r := callRecv(c); r != nil && rootAlloc(r) == recv {
+						if fld := recvFieldIn(x.X, recv, 0); fld != "" {
+							bad = "the umask is applied to the file system's own default bits (" + fld + ") as well as to the requested permission: on a file system whose defaults carry permission bits (a Windows-typed one: 0777 / 0666) the created object loses them, and other users are refused where the emulated system lets everyone in"
+						}
 						found = true
 					} else {
 						why = "the creation mask applied is not the umask of the view that creates the object (it is " + calleeFunc(c).FullName() + "): SetUMask on the view has no effect on created objects"
@@ -737,7 +741,35 @@ func modeUsesViewUMask(v ssa.Value, recv ssa.Value) (bool, string) {
 		}
 	}
 	walk(v, 0)
+	if bad != "" {
+		return false, bad
+	}
 	return found, why
+}
+
+// recvFieldIn: the expression reads a field of the receiver (through |, &, &^ and conversions): its name.
+func recvFieldIn(v ssa.Value, recv ssa.Value, d int) string {
+	if d > 8 || v == nil {
+		return ""
+	}
+	switch x := v.(type) {
+	case *ssa.BinOp:
+		if s := recvFieldIn(x.X, recv, d+1); s != "" {
+			return s
+		}
+		return recvFieldIn(x.Y, recv, d+1)
+	case *ssa.Convert:
+		return recvFieldIn(x.X, recv, d+1)
+	case *ssa.ChangeType:
+		return recvFieldIn(x.X, recv, d+1)
+	case *ssa.UnOp:
+		if x.Op == token.MUL {
+			if fa, ok := x.X.(*ssa.FieldAddr); ok && rootAlloc(fa) == recv {
+				return fieldName(fa.X.Type(), fa.Field)
+			}
+		}
+	}
+	return ""
 }
 
 // helperImplies: the fact is the boolean outcome of a call to a package-internal predicate; every path through that
